@@ -19,7 +19,9 @@ def register(reg):
       defines_ensures={"C17.normalised-item": "item_norm(self, value, result)"},
       ensures={"C01.item-satisfies-the-item-field": ITEM_OK % {"V": "result"},
                "C06.list-untouched": "len(self) == old(len(self)) and %s and %s" % (SAME_PREFIX, UNCH)},
-      raises={"C06.list-untouched": "len(self) == old(len(self)) and %s and %s" % (SAME_PREFIX, UNCH)})
+      raises={"C06.list-untouched": "len(self) == old(len(self)) and %s and %s" % (SAME_PREFIX, UNCH),
+              "C15.a-configuration-item-is-linked-before-it-is-validated": "implies(typeis(value, 'ref:Config') and (typeis(self.list_field.field, 'ref:Schema') or isconfigtype(self.list_field.field)),"
+                                                                           " value._parent is self.cfg and value._key == self.list_field._key and value._container is self)"})
     C("fields.list_field:ListProxy.append", params={"item": "any"}, modifies=MOD + ["list:self"],
       ensures={
           "C17.append-as-builtin": "len(self) == old(len(self)) + 1 and item_norm(self, item, self[old(len(self))]) and " + SAME_PREFIX,
@@ -156,4 +158,69 @@ def register(reg):
                    "C01.an-untyped-list-is-kept-as-it-is": "implies(not truthy(self.field) or typeis(self.field, 'ref:AnyField'), result is value)",
                },
                raises={"C06+C13.a-rejected-list-changes-no-existing-object": KEEP})
-    # DictField._validate / DictProxy.__init__: list(dict.items()) and dict(list of pairs) are outside the encoding; bounded (C06, C17 drivers)
+    # ---------------------------------------------------------------- typed dict construction / bulk update from a dict (C01, C06, C17)
+    # (pairs sequences, iterators, keyword arguments: bounded driver)
+    PAIR = "seq_item(comp_result, j)"
+    PAIRS_OK = ("typeis(comp_result, 'ref:list') and fresh(comp_result) and len(comp_result) == I and "
+                + 'forall("j:int", "implies(0 <= j and j < I, typeis(%(P)s, \'ref:tuple\') and seq_len(%(P)s) == 2 and ' % {"P": PAIR}
+                + (ENTRY_OK % {"K": "seq_item(%s, 0)" % PAIR, "V": "seq_item(%s, 1)" % PAIR}).replace("self.dict_field", "DF") + ')")')
+    RAWD = "(typeis(iterable, 'ref:DictProxy') and iterable.cfg is cfg and iterable.dict_field is dict_field)"
+    ALL_OK = 'forall("k:key", "implies(has(self, k), %s)")' % (ENTRY_OK % {"K": "k", "V": "get(self, k)"}).replace("self.dict_field", "DF")
+    FRAME_D = "heap_unchanged(%s, %s, self)" % (LINKS_ATTRS, KS)
+    C("fields.dict_field:DictProxy.__init__", params={"cfg": "ref:Config", "dict_field": "ref:DictField", "iterable": "none|ref:dict"},
+      modifies=MOD + ["self.*", "dict:self"],
+      requires={"not-itself": "iterable is not self"},
+      assumes={"A.proxy-has-fields": "implies(dict_field._use_proxy, dict_field.key_field is not None and dict_field.value_field is not None)"},
+      invariants={0: {"pairs-so-far-satisfy-key-and-value-fields": PAIRS_OK.replace("DF", "dict_field"),
+                      "built-for": "self.cfg is cfg and self.dict_field is dict_field and dict_field._use_proxy",
+                      "nothing-validated-nothing-touched": "implies(I == 0, heap_unchanged(self))",
+                      "frame": FRAME_D}},
+      ensures={
+          "C17.built-for-this-configuration-and-field": "self.cfg is cfg and self.dict_field is dict_field",
+          "C01.every-entry-satisfies-key-and-value-fields": "implies(not %s, %s)" % (RAWD, ALL_OK.replace("DF", "dict_field")),
+          "C17.nothing-gives-an-empty-dict": "implies(iterable is None or len(iterable) == 0, len(self) == 0)",
+          "C17.a-proxy-of-the-same-configuration-and-field-is-copied-as-it-is": 'implies(%s and len(iterable) > 0, forall("k:key", "has(self, k) == has(iterable, k) and get(self, k) == get(iterable, k)"))' % RAWD,
+          "C11+C17.a-non-empty-source-gives-a-non-empty-dict": "implies(iterable is not None and len(iterable) > 0, len(self) > 0)",
+          "C13.nothing-else-changes": FRAME_D,
+          "C13.copying-or-an-empty-source-touches-nothing": "implies(iterable is None or len(iterable) == 0 or %s, heap_unchanged(self))" % RAWD,
+      },
+      raises={"C13.nothing-else-changes": FRAME_D,
+              "C13.copying-or-an-empty-source-touches-nothing": "implies(iterable is None or len(iterable) == 0 or %s, heap_unchanged(self))" % RAWD})
+    RAWU = "(typeis(iterable, 'ref:DictProxy') and iterable.cfg is self.cfg and iterable.dict_field is self.dict_field)"
+    CHANGED_OK = ('forall("k:key", "implies(has(self, k) and not (old(has(self, k)) and get(self, k) == old(get(self, k))), %s)")'
+                  % (ENTRY_OK % {"K": "k", "V": "get(self, k)"}))
+    KEPT = 'forall("k:key", "implies(old(has(self, k)), has(self, k))")'
+    C("fields.dict_field:DictProxy.update", params={"iterable": "none|ref:dict", "kwargs": "ref:dict"}, modifies=MOD + ["dict:self"], assumes=HASF,
+      requires={"no-keyword-arguments": "len(kwargs) == 0 and kwargs is not self and kwargs is not iterable", "not-itself": "iterable is not self"},
+      invariants={0: {"nothing-to-do": "len(kwargs) == 0 and N == 0"},
+                  1: {"copying-a-compatible-proxy": "typeis(iterable, 'ref:DictProxy') and iterable.cfg is self.cfg and iterable.dict_field is self.dict_field and " + KEPT
+                      + ' and forall("k:key", "implies(has(self, k) and not (old(has(self, k)) and get(self, k) == old(get(self, k))), has(iterable, k) and get(self, k) == get(iterable, k))")',
+                      "frame": FRAME_D},
+                  2: {"pairs-so-far-satisfy-key-and-value-fields": PAIRS_OK.replace("DF", "self.dict_field"), "frame": "%s and %s" % (DSAME, UNCH)}},
+      ensures={
+          "C01.every-new-or-changed-entry-satisfies-key-and-value-fields": "implies(not %s, %s)" % (RAWU, CHANGED_OK),
+          "C17.update-keeps-every-old-key": KEPT,
+          "C17.nothing-to-merge-changes-nothing": "implies(iterable is None or len(iterable) == 0, %s)" % DSAME,
+          "C13.nothing-else-changes": FRAME_D,
+      },
+      raises={"C06.a-rejected-update-from-a-dict-leaves-the-dict-as-it-was": "implies(not %s, %s and %s)" % (RAWU, DSAME, UNCH)})
+    C("fields.dict_field:DictProxy.__ior__", params={"other": "none|ref:dict"}, returns="ref:DictProxy", modifies=MOD + ["dict:self"], assumes=HASF,
+      requires={"not-itself": "other is not self"},
+      ensures={"C17.ior-is-update-and-returns-the-dict": "result is self and " + KEPT,
+               "C01.every-new-or-changed-entry-satisfies-key-and-value-fields": "implies(not %s, %s)" % (RAWU.replace("iterable", "other"), CHANGED_OK),
+               "C13.nothing-else-changes": FRAME_D},
+      raises={"C06.a-rejected-ior-from-a-dict-leaves-the-dict-as-it-was": "implies(not %s, %s and %s)" % (RAWU.replace("iterable", "other"), DSAME, UNCH)})
+    C("fields.dict_field:DictProxy.copy", params={}, returns="ref:DictProxy", modifies=["fresh", "ncalls"],
+      requires={"A.a-proxy-exists-only-for-a-typed-dict-field": "self.dict_field._use_proxy"},
+      ensures={"C17.copy-is-a-new-typed-dict-with-the-same-entries": "fresh(result) and result is not self and exact_class(result, 'DictProxy') and result.cfg is self.cfg and result.dict_field is self.dict_field"
+                                                                   ' and forall("k:key", "has(result, k) == has(self, k) and get(result, k) == get(self, k)")',
+               "C13.copy-changes-nothing": "heap_unchanged()"},
+      raises={"C13.copy-changes-nothing": "heap_unchanged()"})
+    reg.refine("fields.dict_field:DictField._validate", "core:Field._validate",
+               defs={"accepts_type": (["f", "r"], "typeis(r, 'ref:dict')")}, returns="ref:dict", modifies=MOD,
+               assumes={"A.proxy-has-fields": "implies(self._use_proxy, self.key_field is not None and self.value_field is not None)"},
+               ensures={"C06+C13.validating-a-dict-changes-no-existing-object": KEEP,
+                        "C01.a-typed-dict-becomes-a-proxy-of-this-configuration": "implies(self._use_proxy, exact_class(result, 'DictProxy') and fresh(result) and result.cfg is cfg and result.dict_field is self)",
+                        "C01.an-untyped-dict-is-kept-as-it-is": "implies(not self._use_proxy, result is value)"},
+               raises={"C06+C13.a-rejected-dict-changes-no-existing-object": KEEP})
+
